@@ -651,10 +651,6 @@ STATUS_NAMES = ['DISABLED', 'IDLE', 'WARN', 'BUSY', 'RAMPING', 'FINALIZING', 'ER
 STATUS_CODES = [0, 5, 100, 101, 200, 300, 370, 390, 400, 777]
 
 
-class _Plain:
-    """a mixin without accessibles (class layout variation)"""
-
-
 def _status_replay(line):
     """define the classes of one behaviour of Gen_EnumStatus for real, instantiate each, compare"""
     boot()
@@ -682,7 +678,8 @@ def _status_replay(line):
                     body['status'] = Parameter(datatype=StatusType(body['Status']))
                 elif kind == 'tuple':
                     body['status'] = Parameter(datatype=TupleOf(EnumType(body['Status']), StringType()))
-            cls = type(f'Cls{j}', (base,) if j % 2 else (_Plain, base), body)
+            # class layout variation: every other class has a mixin without accessibles in front
+            cls = type(f'Cls{j}', (base,) if j % 2 else (type(f'Plain{j}', (), {}), base), body)
             err = ''
         except Exception as ex:
             cls, err = None, type(ex).__name__
